@@ -1045,6 +1045,18 @@ where
 
         if let TimerState::Active { timer } = this.head_timer {
             if timer.as_mut().poll(cx).is_ready() {
+                // the timer fires once
+                this.head_timer.clear(line!());
+
+                // nothing to time out once the connection is closing or an error response
+                // for the unparsable head has been queued
+                if this
+                    .flags
+                    .intersects(Flags::SHUTDOWN | Flags::READ_DISCONNECT)
+                {
+                    return Ok(());
+                }
+
                 // timeout on first request (slow request) return 408
 
                 trace!("timed out on slow request; replying with 408 and closing connection");
@@ -1091,13 +1103,18 @@ where
                 this.flags.insert(Flags::SHUTDOWN);
 
                 if let Some(deadline) = this.config.client_disconnect_deadline() {
-                    // start shutdown timeout if enabled
-                    this.shutdown_timer
-                        .set_and_init(cx, sleep_until(deadline.into()), line!());
+                    // start shutdown timeout if enabled; an earlier deadline stays
+                    if !matches!(this.shutdown_timer, TimerState::Active { .. }) {
+                        this.shutdown_timer
+                            .set_and_init(cx, sleep_until(deadline.into()), line!());
+                    }
                 } else {
                     // no shutdown timeout, drop socket
                     this.flags.insert(Flags::WRITE_DISCONNECT);
                 }
+
+                // the timer fires once; polling it again would keep re-arming the shutdown timer
+                this.ka_timer.clear(line!());
             }
         }
 
@@ -1322,6 +1339,9 @@ where
                     if inner.flags.contains(Flags::WRITE_DISCONNECT) {
                         Poll::Ready(Ok(()))
                     } else {
+                        // bound the shutdown by the disconnect timeout, however it was entered
+                        inner.as_mut().ensure_linger_timer(cx);
+
                         // flush buffer and wait on blocked
                         ready!(inner.as_mut().poll_flush(cx))?;
                         Pin::new(inner.as_mut().project().io.as_mut().unwrap())
